@@ -61,7 +61,7 @@ impl Prop for C09 {
     fn strategy(ctx: &Ctx) -> BoxedStrategy<Case> {
         let max_len = if ctx.thorough { 60 } else { 40 };
         //  create clone droptx droprx send recv region set server remote
-        let hist = world::program_strategy([3, 2, 1, 5, 12, 4, 0, 1, 1, 0], 3, max_len).prop_map(|ops| Case::History { ops });
+        let hist = world::program_strategy([3, 2, 1, 5, 12, 4, 0, 1, 1, 1], 3, max_len).prop_map(|ops| Case::History { ops });
         // size class 9: a message far larger than the kernel buffers - its send blocks until the
         // receiver reads or vanishes (the receiver of the race never reads, it only vanishes)
         let plan = (prop_oneof![6 => Just(0u8), 3 => 1u8..4, 1 => Just(9u8)], any::<bool>(), 0u16..2000).prop_map(|(size, attach, jitter)| SendPlan { size, attach, jitter });
